@@ -99,7 +99,7 @@ class OptSim(Sim):
               "illegal_hyperparams_refused", "param_without_grad_skipped", "backward_fault_then_recovery",
               "variant_pruned", "momentum_plain", "adam", "adamw", "sgd", "optimizer_recreated", "requires_grad_toggled_mid_run",
               "tied_parameters_share_storage", "tied_parameters_both_updated",
-              "interrupted_backward_retried_on_same_graph", "accumulated_gradient_checked", "numpy_scalar_hyperparameters"]
+              "interrupted_backward_retried_on_same_graph", "accumulated_gradient_checked", "numpy_scalar_hyperparameters", "tie_dissolved_by_rebinding"]
     RULE = ("one run = parameters + 1-2 optimizers with swarm hyper-parameters and a seeded interleaving of backward/zero_grad/step events; "
             "distinct = optimizer kinds x non-default hyper-parameter set x event-kind sequence; non-trivial = at least two steps compared")
     ASSUMPTIONS = ["the gradient fed to the model at each step is the one the system accumulated (C04 decides accumulation)",
@@ -162,7 +162,9 @@ class OptSim(Sim):
             cands = [i for i in sorted(st.P) if st.P[i].data.ndim >= 1 and st.P[i].data.size <= 64 and i not in st.root]
             if cands and rng.random() < 0.12:
                 # tied weights: a second parameter whose storage is a view of an earlier one (decoder weight = encoder weight transposed)
-                return {"k": "param_tied", "id": len(st.P), "of": rng.choice(cands), "how": rng.choice(["T", "same", "rev"]), "rg": rng.random() < 0.9}
+                of = rng.choice(cands)
+                hows = [h for (r, h) in st.root.values() if r == of]
+                return {"k": "param_tied", "id": len(st.P), "of": of, "how": hows[0] if hows else rng.choice(["T", "same", "rev"]), "rg": rng.random() < 0.9}
             return {"k": "param", "id": len(st.P), "data": enc(small_values(rng, shape, dt, -2, 2, avoid_zero=True)),
                     "rg": rng.random() < 0.8, "wrap": rng.random() < 0.5}
         n_opts = 2 if kn["two_opts"] else 1
@@ -252,12 +254,14 @@ class OptSim(Sim):
         if src is None or src.data.ndim < 1 or ev["of"] in st.root:
             st.skipped += 1
             return
-        view = self._view(src.data, ev["how"])
+        hows = [h for (r, h) in st.root.values() if r == ev["of"]]
+        how = hows[0] if hows else ev["how"]            # (all views of one storage use the same transform: keeps regrouping simple)
+        view = self._view(src.data, how)
         t = SG.Tensor(view, requires_grad=ev["rg"])
         if not np.shares_memory(t.data, src.data):
             st.notes["tensor_constructor_copied_the_view"] += 1
         else:
-            st.root[ev["id"]] = (ev["of"], ev["how"])
+            st.root[ev["id"]] = (ev["of"], how)
             st.probes["tied_parameters_share_storage"] += 1
         st.P[ev["id"]] = t
         st.pmeta[ev["id"]] = {"rg": bool(ev["rg"]), "wrap": False}
@@ -265,6 +269,36 @@ class OptSim(Sim):
         st.stepped_since_zero[ev["id"]] = False
         st.ledger[ev["id"]] = None
         st.ledger_abs[ev["id"]] = 0.0
+
+    def _regroup(self, st):
+        """re-derive the tie groups from what the arrays actually share NOW (an optimizer that re-binds p.data takes that parameter out
+        of its group; the others may still share the old storage among themselves)"""
+        roots = sorted({r for (r, h) in st.root.values()})
+        for r in roots:
+            members = [i for i, (rr, h) in st.root.items() if rr == r]
+            how = st.root[members[0]][1]
+            parts = []
+            for i in [r] + members:
+                for part in parts:
+                    if np.shares_memory(st.P[i].data, st.P[part[0]].data):
+                        part.append(i)
+                        break
+                else:
+                    parts.append([i])
+            for i in members:
+                del st.root[i]
+            for part in parts:
+                if len(part) < 2:
+                    continue
+                if r in part:
+                    for i in part:
+                        if i != r:
+                            st.root[i] = (r, how)
+                else:
+                    for i in part[1:]:
+                        st.root[i] = (part[0], "same")     # both were the same view of the old storage
+            if any(len(part) < 2 or r not in part for part in parts[1:]) or len(parts) > 1:
+                st.probes["tie_dissolved_by_rebinding"] += 1
 
     @staticmethod
     def _view(a, how):
@@ -475,6 +509,7 @@ class OptSim(Sim):
             return
         model = o["model"]
         ids = o["ids"]
+        self._regroup(st)
         pre, grads = {}, {}
         for i in ids:
             p = st.P[i]
@@ -556,6 +591,17 @@ class OptSim(Sim):
         if o.get("desync"):
             # optimizer state is unknown after an unjudged step: only isolation clauses apply from here on
             return
+        # Tied parameters: the cited rules update storage in place, so entries that share storage receive each other's updates
+        # (sequential model).  An implementation that re-binds p.data to a new array dissolves the tie at that moment - then each
+        # entry moves on its own from its pre-step value, which is admitted too (identity of p.data arrays is not asserted).
+        broken = set()
+        for i in ids:
+            if i in st.root:
+                r = st.root[i][0]
+                if not np.shares_memory(st.P[i].data, st.P[r].data):
+                    broken.add(i)
+        if broken:
+            st.probes["tie_dissolved_by_rebinding"] += 1
         survivors = []
         worst = None
         for var in model.variants:
@@ -565,10 +611,14 @@ class OptSim(Sim):
             # parameters are updated one after the other, in place: a parameter whose storage is a view of an earlier one starts from
             # the already updated values (tied weights receive both updates)
             vals = {r: a.copy() for r, a in pre_root.items()}
+            own = {i: pre[i].copy() for i in broken}          # ties the step itself dissolved: those parameters move on their own
             for n, i in enumerate(ids):
                 if i in frozen or grads[i] is None:
                     continue
                 r, how = st.root.get(i, (i, None))
+                if i in own:
+                    own[i][...] = model.predict(var, n, own[i].copy(), grads[i], commit=True)
+                    continue
                 view = vals[r] if how is None else self._view(vals[r], how)
                 theta = np.array(view, copy=True)
                 new = model.predict(var, n, theta, grads[i], commit=True)
@@ -583,7 +633,7 @@ class OptSim(Sim):
                         st.fail("C08.param_without_grad_moved", f"step() changed parameter {i}, which has no gradient", param=i)
                     continue
                 r, how = st.root.get(i, (i, None))
-                exp = np.array(vals[r] if how is None else self._view(vals[r], how), copy=True)
+                exp = own[i].copy() if i in own else np.array(vals[r] if how is None else self._view(vals[r], how), copy=True)
                 if len([j for j in self._group(st, i) if j in moving]) >= 2:
                     st.probes["tied_parameters_both_updated"] += 1
                 obs = np.asarray(p.data, dtype=np.float64)
@@ -612,6 +662,8 @@ class OptSim(Sim):
             name, i, err, tol, obs, exp, was = worst
             st.fail("C08.trajectory", f"{o['kind']} step {model.t}: parameter {i} = {obs!r} after step, the rule gives {exp!r} (was {was!r}; "
                     f"abs err {err:.3g} > tol {tol:.3g}; last variant tried: {name})", kind=o["kind"], hp=o["hp"], param=i)
+        for i in broken:
+            st.root.pop(i, None)
         st.n_steps += 1
         if st.n_steps >= 2:
             st.nontrivial = True
